@@ -124,5 +124,5 @@ def run(ctx):
             prio = {x: rng.choice([1, -1, 2]) for x in rng.sample(names, min(rng.randint(0, 2), len(names)))}
             do_case(ctx, {"ast": a, "prio": prio})
         else:
-            a, o, t = gen_valid(rng, ctx.quick, prefix_p=0.15)
+            a, o, t = gen_valid(rng, ctx.quick, prefix_p=0.15, empty_p=0.04)
             do_case(ctx, {"ast": a})
